@@ -229,7 +229,7 @@ func verifC15(extended bool) {
 
 	next := append([]vPCSlot{}, slots...)
 	j := verifrt.Choose("slot", nSlots)
-	op := verifrt.Choose("op", 8)
+	op := verifrt.Choose("op", 10)
 	var err error
 	accept := true
 	nameTaken := func(name string) bool {
@@ -315,6 +315,25 @@ func verifC15(extended bool) {
 		err = env.update(func(ctx MutateContext) error {
 			return env.emp.Update(ctx, &vEmp{Id: vIds[j], Name: name}, MapFieldChecker{vFName: struct{}{}})
 		})
+	case 8, 9: // DeleteWhere through parent (8) / child (9) with a filter on the shared field
+		for i, s := range slots {
+			if s.kind == 0 || !(s.name >= "a") {
+				continue
+			}
+			if op == 9 && s.kind == 1 {
+				if extended {
+					verifrt.Outside("DeleteWhere through an extended child store matching an entity without child data (not constrained)")
+				}
+				continue // a plain child store does not see plain parent entities
+			}
+			next[i] = vPCSlot{}
+		}
+		err = env.update(func(ctx MutateContext) error {
+			if op == 8 {
+				return env.emp.DeleteWhere(ctx, `name >= "a"`)
+			}
+			return mgr.DeleteWhere(ctx, `name >= "a"`)
+		})
 	case 4, 5: // delete through parent / child
 		if slots[j].kind == 0 {
 			accept = false
@@ -355,5 +374,5 @@ func VerifC15_PlainChildStore()    { verifC15(false) }
 func VerifC15_ExtendedChildStore() { verifC15(true) }
 
 func init() {
-	verifQueryFamilies = append(verifQueryFamilies, func() []string { return []string{"true", "true sort by name limit 1"} })
+	verifQueryFamilies = append(verifQueryFamilies, func() []string { return []string{"true", "true sort by name limit 1", `name >= "a"`} })
 }
